@@ -22,6 +22,7 @@ type WriteBufItem[K comparable, V any] struct {
 	code       int8
 	rechedule  bool
 	fromNVM    bool
+	nvmDirty   bool // UPDATE only, entry value changed and no longer same as secondary cache
 	hash       uint64
 }
 
